@@ -65,6 +65,12 @@ def jobs(tier):
                      bound="concrete shape %dx%d; cells symbolic in {0,1,2,3} (IEEE, exact instances)" % (m, n),
                      clause="column/row averages, sample variance, standard deviation, rms, norm == definitions; covariance symmetric with the variances on its diagonal "
                             "(which cells, counts, denominators n and n-1; sqrt uninterpreted; exact instances, so independent of the evaluation order; rounding on general data not decided)"))
+    for (n, miss) in ([(1, 0), (2, 2)] if tier == "quick" else [(1, 0), (2, 2), (1, 1), (2, 0)]):
+        J.append(Job("col_statistics_missing@N=%d,row=%d" % (n, miss), "C11/kernels.c", entry="h_col_statistics_missing", srcs=S, mode="ieee", kind="bounded",
+                     defines={"VC_M": 3, "VC_N": n, "VC_MISSROW": miss, "VC_STATS": None}, unwind=6, timeout=900, stubs=["stubs/usqrt_stub.c"],
+                     functions=["MatrixColAverage", "MatrixColVar", "MatrixColSDEV", "MatrixColRMS"],
+                     bound="3 rows x %d columns, row %d missing-coded; other cells symbolic in {0,1,2,3} (IEEE, exact instances)" % (n, miss),
+                     clause="column average / variance / standard deviation / rms ignore missing-coded cells: they equal the statistic of the remaining rows (count and count-1 denominators)"))
     for m in ([1, 2, 3, 4] if tier == "quick" else [1, 2, 3, 4, 5, 6]):   # 17 rows (tried, for a seeded size-dependent sort) did not finish in 300 s
         J.extend(R("sort", "h_sort", {"VC_M": m}, "MatrixSort / MatrixReverseSort: output rows are a permutation of the input rows ordered by the key column", mode="ieee",
                    fns=["MatrixSort", "MatrixReverseSort"]))
